@@ -132,7 +132,7 @@ pub fn decode_op(u: &mut Unstructured, kind: Kind, uni: u32, dom: u8, leaks: boo
         39 => Op::Get { t: target(u, uni)?, by_ref: u.arbitrary()? },
         40 => Op::Retain { mask: mask(u)? },
         41 | 42 => Op::RetainMut { mask: mask(u)?, rw: rewrite(u, dom)?, rwmask: mask(u)?, tagw: u.arbitrary()? },
-        43 | 44 => Op::IterMut { prog: program(u, 20)?, rw: rewrite(u, dom)?, rwmask: mask(u)?, tagw: u.arbitrary()?, end: endhow(u)?, via_into: u.arbitrary()? },
+        43 | 44 => Op::IterMut { prog: program(u, 20)?, rw: rewrite(u, dom)?, rwmask: mask(u)?, tagw: u.arbitrary()?, end: endhow(u)?, via_into: u.arbitrary()?, late: false },
         45 => Op::IterProg {
             which: match u.int_in_range(0u8..=3)? {
                 0 => ItKind::Iter,
@@ -154,6 +154,7 @@ pub fn decode_op(u: &mut Unstructured, kind: Kind, uni: u32, dom: u8, leaks: boo
                 0 => Carrier::JsonText,
                 1 => Carrier::JsonValue,
                 2 => Carrier::InPlace,
+                3 if u.arbitrary::<bool>()? => Carrier::SeqHint(u.int_in_range(-5..=8)?),
                 _ => Carrier::SeqDe,
             },
             cross: u.arbitrary()?,
